@@ -244,6 +244,70 @@ class HFile(object):
         return self.seq
 
 
+CHR_TABLE = [chr(i) for i in range(256)]
+
+
+def is_chr_enum(v):
+    return isinstance(v, SEnum) and len(v.table) == 256 and v.table[65] == "A" and v.table == CHR_TABLE
+
+
+class SChars(SVal):
+    """a str / bytes value of known length whose character codes are (symbolic) ints in [0, 256)"""
+    __slots__ = ("codes", "kind")
+
+    def __init__(self, codes, kind="str"):
+        self.codes = list(codes)
+        self.kind = kind
+
+    @staticmethod
+    def of(v, kind=None):
+        if isinstance(v, SChars):
+            return v
+        if is_chr_enum(v):
+            return SChars([z3.simplify(v.idx)], "str")
+        if isinstance(v, str) and all(ord(c) < 256 for c in v):
+            return SChars([ord(c) for c in v], "str")
+        if isinstance(v, (bytes, bytearray)):
+            return SChars(list(v), "bytes")
+        return None
+
+    def __repr__(self):
+        return "SChars(%s,%r)" % (self.kind, self.codes)
+
+
+class HSink(object):
+    """write-only byte sink (a writefunc such as list.append / file.write, or a file open for writing):
+    everything written so far as one z3 Seq(Int) of byte values"""
+    def __init__(self, name="sink", seq=None):
+        self.name = name
+        self.seq = seq if seq is not None else z3.Empty(z3.SeqSort(z3.IntSort()))
+        self.closed = False
+        self.nwrites = 0
+
+    @property
+    def out(self):
+        return sym.ZSeq(self.seq)
+
+    def put(self, v, eng, node=None):
+        from . import sym as _s
+        c = SChars.of(v)
+        if c is not None:
+            if c.codes:
+                self.seq = z3.Concat(self.seq, *[z3.Unit(_ie(x)) for x in c.codes])
+        elif isinstance(v, _s.ZSeq):
+            self.seq = z3.Concat(self.seq, v.e)
+        elif isinstance(v, Opaque):
+            tab = eng.__dict__.setdefault("opaque_seqs", {})
+            ent = tab.get(id(v))
+            if ent is None:
+                body = z3.Const(eng.fresh("%s!chunk" % (v.tag or "bytes")), z3.SeqSort(z3.IntSort()))
+                tab[id(v)] = ent = (v, body)
+            self.seq = z3.Concat(self.seq, ent[1])
+        else:
+            raise Unsupported("write of %s to a byte sink" % type(v).__name__)
+        self.nwrites += 1
+
+
 class HMap(object):
     """dict int -> int given as parameter (read-only): has/val arrays"""
     def __init__(self, name):
@@ -392,7 +456,8 @@ class Contract(object):
                  yield_count=None, yield_at=None, yield_post=None, loops=None, result=None, effect=None,
                  inline=False, opaque=(), note="", exc_ensures=None, modifies=(),
                  yield_seq=0, yield_encode=None, yields_eq=None, native_yields=None, native_post=None, findings=(),
-                 name=None, when=None, examples=None, external_args=(), result_pytype=None, externals=(), unfold_depth=None, no_native_replay=False, yield_fresh=None, yield_post_call=None):
+                 name=None, when=None, examples=None, external_args=(), result_pytype=None, externals=(), unfold_depth=None, no_native_replay=False, yield_fresh=None, yield_post_call=None, native_check=None):
+        self.native_check = native_check   # (config, inputs) -> [violated labels]: custom native replay of the real function
         self.target = target
         self.modname, self.qualname = target.split(":")
         self.params = params or {}
@@ -723,6 +788,11 @@ class Engine(object):
             a = a.v
         if isinstance(b, PyLong):
             b = b.v
+        if isinstance(op, ast.Add) and (isinstance(a, SChars) or isinstance(b, SChars) or is_chr_enum(a) or is_chr_enum(b)):
+            ca, cb = SChars.of(a), SChars.of(b)
+            if ca is not None and cb is not None and ca.kind == cb.kind:
+                return SChars(ca.codes + cb.codes, ca.kind)
+            return Opaque("str+")
         if isinstance(a, STupleSeq) or isinstance(b, STupleSeq):
             if isinstance(op, ast.Add):
                 return STupleSeq.of(a).concat(STupleSeq.of(b))
